@@ -204,7 +204,16 @@ pub fn eval(ctx: &Ctx, case: &Case) -> Verdict {
         Case::Negative { parts, boundary, what, cut } => {
             if contains_sub(&data_of(parts), boundary.as_bytes()) { return Verdict::Discard; }
             let full = match FormMultipartData::generate(to_parts(parts), boundary) { Ok(b) => b, Err(_) => return Verdict::Discard };
-            let (bytes, class, sig): (Vec<u8>, &'static str, &str) = match what % 5 {
+            let (bytes, class, sig): (Vec<u8>, &'static str, &str) = match what % 7 {
+                5 | 6 => { // every strict prefix lacks the closing delimiter: cut anywhere (inside a delimiter line, a header line, the blank line, a body)
+                    let k = crate::fw::util::pick_idx(*cut, full.len());
+                    let p = &full[..k];
+                    // in the library's own convention (FormMultipartData::generate) the last delimiter carries no "--": a prefix that ends right after a
+                    // delimiter line is a complete body with fewer parts, not a truncated one
+                    let q = p.strip_suffix(b"\r\n").or_else(|| p.strip_suffix(b"\n")).or_else(|| p.strip_suffix(b"\r")).unwrap_or(p);
+                    let b = boundary.as_bytes();
+                    if q.ends_with(b) && (q.len() == b.len() || q[q.len() - b.len() - 1] == b'\n') { return Verdict::Discard; }
+                    (p.to_vec(), "truncated-at-an-arbitrary-byte", "missing-closing-boundary-accepted") }
                 0 => (full[boundary.len() + 2..].to_vec(), "opening-delimiter-removed", "missing-opening-boundary-accepted"),
                 1 => { // truncate inside the last part's body / right after it (closing delimiter missing)
                     let end = full.len() - boundary.len() - 2; // before CRLF + closing boundary
@@ -288,7 +297,7 @@ pub fn run(ctx: &Ctx) {
     ctx.prop("browser", ctx.share(ctx.scale(12_000, 500_000)), (parts_strategy(max_body), boundary_strategy(), prop_oneof![3 => Just(0u8), 1 => 1u8..4]).prop_map(|(parts, boundary, sep)| Case::Browser { parts, boundary, sep }), |c| eval(ctx, c));
     // near-miss delimiter lines inside bodies (the dash-insensitive match of earlier versions; any non-exact delimiter test)
     ctx.prop("decoys", ctx.share(ctx.scale(12_000, 500_000)), (parts_strategy(128), boundary_strategy(), decoy_strategy(), any::<bool>()).prop_map(|(parts, boundary, d, browser)| { let parts = with_decoys(parts, &boundary, &d); if browser { Case::Browser { parts, boundary, sep: 0 } } else { Case::RoundTrip { parts, boundary } } }), |c| eval(ctx, c));
-    ctx.prop("negatives", ctx.share(ctx.scale(12_000, 500_000)), (parts_strategy(256), boundary_strategy(), 0u8..5, any::<u16>()).prop_map(|(parts, boundary, what, cut)| Case::Negative { parts, boundary, what, cut }), |c| eval(ctx, c));
+    ctx.prop("negatives", ctx.share(ctx.scale(12_000, 500_000)), (parts_strategy(256), boundary_strategy(), 0u8..7, any::<u16>()).prop_map(|(parts, boundary, what, cut)| Case::Negative { parts, boundary, what, cut }), |c| eval(ctx, c));
     let fields = proptest::collection::vec(("[a-z]{1,8}", "[!-~]([ -~]{0,20}[!-~])?|"), 1..6);
     ctx.prop("echo", ctx.share(ctx.scale(6_000, 200_000)), (fields, "[A-Za-z0-9]{1,30}").prop_map(|(fields, boundary)| Case::Echo { fields, boundary }), |c| eval(ctx, c));
     // saved corpus of the coverage-guided campaigns (corpus/c16/*.pack), decoded like the fuzz target does
